@@ -889,6 +889,18 @@ fn sane_dirname(b: &[u8]) -> Vec<u8> {
     v
 }
 
+const FIFO_PKG: &str = "zz-fifo-1.0";
+
+fn mkfifo(path: &std::path::Path) {
+    use std::os::unix::ffi::OsStrExt;
+    if let Ok(c) = std::ffi::CString::new(path.as_os_str().as_bytes()) {
+        // (best effort: a file system without FIFOs just lacks this one object)
+        unsafe {
+            libc::mkfifo(c.as_ptr(), 0o644);
+        }
+    }
+}
+
 fn pipeline_b(
     pkgs: &[BPkg],
     chunks: &[usize],
@@ -917,6 +929,20 @@ fn pipeline_b(
             }
         }
         dirnames.push(dn);
+    }
+    if hash_seed % 7 == 2 {
+        // special files where regular ones are expected: a package directory whose +COMMENT
+        // is a FIFO nobody writes to (deciding whether the directory is a package must not
+        // open it), and a FIFO and a symbolic-link loop directly in the database
+        ctx.fault("special_files_in_db");
+        let dir = dbpath.join(FIFO_PKG);
+        if std::fs::create_dir_all(&dir).is_ok() {
+            mkfifo(&dir.join("+COMMENT"));
+            let _ = std::fs::write(dir.join("+CONTENTS"), b"@name zz-fifo-1.0\n");
+            let _ = std::fs::write(dir.join("+DESC"), b"a package whose +COMMENT is a FIFO\n");
+        }
+        mkfifo(&dbpath.join("zz-stray-fifo-1.0"));
+        let _ = std::os::unix::fs::symlink("zz-loop-1.0", dbpath.join("zz-loop-1.0"));
     }
     if hash_seed % 16 == 0 {
         // the database path holds a plain file (a pkgdb.byfile.db-style database, or a
@@ -1028,6 +1054,9 @@ fn pipeline_b(
     listed.sort_by(|a, b| a.pkgname().cmp(b.pkgname()));
     for pkg in listed {
         let _ = (pkg.pkgbase(), pkg.pkgversion());
+        if pkg.pkgname() == FIFO_PKG {
+            continue; // reading a FIFO nobody writes to blocks by definition
+        }
         all_names.push(clip(pkg.pkgname(), 64).to_string());
         let mut md = Metadata::new();
         let mut texts: Vec<Option<String>> = Vec::new();
@@ -1729,7 +1758,9 @@ impl Property for C17 {
                         2 => *rng.pick(&[127usize, 128, 129, 255, 256, 257, 1023, 1024, 4095, 4096]),
                         _ => rng.urange(0, 20),
                     };
-                    let mb: &str = rng.pick_str(&["\u{e9}", "\u{fc}", "\u{20ac}", "\u{3042}", "\u{1f600}"]);
+                    // (among them the three characters whose lower-case form is longer, and some
+                    // whose upper-case form is: a name of 16 bytes becomes one of 17)
+                    let mb: &str = rng.pick_str(&["\u{e9}", "\u{fc}", "\u{20ac}", "\u{3042}", "\u{1f600}", "\u{130}", "\u{23a}", "\u{23e}", "\u{df}", "\u{149}", "\u{fb01}"]);
                     let j = rng.urange(0, mb.len() - 1).min(k);
                     let mut name = String::from(base);
                     let filler = *rng.pick(&['-', 'a', 'S', '5', '_']);
